@@ -83,6 +83,10 @@ func fnSInterCard(ctx *cmdContext, args map[string]any) (output respValue, err e
 		output.data = rstrNumKeysGreater
 		return
 	}
+	if limit64 < 0 {
+		output.data = respErrorString("ERR LIMIT can't be negative")
+		return
+	}
 
 	strs := make([]string, 0, len(keyNames))
 	for i := 0; i < len(keyNames); i++ {
